@@ -1,233 +1,3 @@
-//! Correspondence harness: generates cases for one domain from a seed, runs
-//! the REAL coap-lite code (built from /repo's working tree) on each of them
-//! in-process under `catch_unwind`, and writes
-//!   cases.txt   one protocol line per case (the Lean driver's input)
-//!   impl.out    the canonicalised observable result of each line
-//!   oracle.txt  failures of the property's *direct oracle* (independent of the model)
-//!   stats.json  the input distribution actually hit
-//! usage: harness <domain> <quick|thorough> <seed> <outdir> [replay-file]
-#![allow(dead_code)]
-
-use std::collections::{BTreeMap, BTreeSet};
-use std::fmt::Write as _;
-use std::fs::File;
-use std::io::{BufWriter, Write};
-use std::panic::{catch_unwind, AssertUnwindSafe};
-
-mod acc;
-mod blk;
-mod bv;
-mod lf;
-mod obs;
-mod pkt;
-mod resp;
-mod tbl;
-mod uint;
-
-#[global_allocator]
-static GLOBAL: blk::Counting = blk::Counting;
-
-pub struct Rng(pub u64);
-impl Rng {
-    pub fn next(&mut self) -> u64 {
-        self.0 = self.0.wrapping_add(0x9E3779B97F4A7C15);
-        let mut z = self.0;
-        z = (z ^ (z >> 30)).wrapping_mul(0xBF58476D1CE4E5B9);
-        z = (z ^ (z >> 27)).wrapping_mul(0x94D049BB133111EB);
-        z ^ (z >> 31)
-    }
-    pub fn below(&mut self, n: u64) -> u64 {
-        if n == 0 {
-            0
-        } else {
-            self.next() % n
-        }
-    }
-    pub fn range(&mut self, lo: u64, hi: u64) -> u64 {
-        lo + self.below(hi - lo + 1)
-    }
-    pub fn pick<'a, T>(&mut self, xs: &'a [T]) -> &'a T {
-        &xs[self.below(xs.len() as u64) as usize]
-    }
-    pub fn chance(&mut self, num: u64, den: u64) -> bool {
-        self.below(den) < num
-    }
-    pub fn bytes(&mut self, n: usize) -> Vec<u8> {
-        (0..n).map(|_| self.next() as u8).collect()
-    }
-}
-
-pub fn hex(b: &[u8]) -> String {
-    if b.is_empty() {
-        return "-".to_string();
-    }
-    let mut s = String::with_capacity(b.len() * 2);
-    for x in b {
-        let _ = write!(s, "{:02x}", x);
-    }
-    s
-}
-
-pub fn unhex(s: &str) -> Vec<u8> {
-    if s == "-" {
-        return vec![];
-    }
-    (0..s.len() / 2)
-        .map(|i| u8::from_str_radix(&s[2 * i..2 * i + 2], 16).unwrap())
-        .collect()
-}
-
-pub struct Ctx {
-    pub tier_thorough: bool,
-    pub seed: u64,
-    pub rng: Rng,
-    cases: BufWriter<File>,
-    out: BufWriter<File>,
-    oracle: BufWriter<File>,
-    pub n_lines: u64,
-    pub n_oracle_fail: u64,
-    pub stats: BTreeMap<String, u64>,
-    pub distinct: BTreeSet<u64>,
-    pub samples: Vec<String>,
-    pub exhaustive: Vec<String>,
-}
-
-fn fnv(s: &str) -> u64 {
-    let mut h: u64 = 0xcbf29ce484222325;
-    for b in s.bytes() {
-        h ^= b as u64;
-        h = h.wrapping_mul(0x100000001b3);
-    }
-    h
-}
-
-impl Ctx {
-    /// record one protocol line and the implementation's result for it
-    pub fn case(&mut self, line: &str, result: &str) {
-        writeln!(self.cases, "{}", line).unwrap();
-        writeln!(self.out, "{}", result).unwrap();
-        self.n_lines += 1;
-        if self.samples.len() < 6 && (self.n_lines % 9973 == 1 || self.samples.len() < 2) {
-            self.samples.push(format!("{} => {}", trunc(line), trunc(result)));
-        }
-    }
-    /// count a case as non-trivial (it reached past the first guard of the
-    /// function under test); distinctness by hash of the canonical line
-    pub fn nontrivial(&mut self, line: &str) {
-        self.distinct.insert(fnv(line));
-    }
-    pub fn stat(&mut self, key: &str) {
-        *self.stats.entry(key.to_string()).or_insert(0) += 1;
-    }
-    pub fn stat_n(&mut self, key: &str, n: u64) {
-        *self.stats.entry(key.to_string()).or_insert(0) += n;
-    }
-    /// the property's direct oracle failed on the implementation's own output
-    pub fn oracle_fail(&mut self, prop: &str, line: &str, detail: &str) {
-        // keep the file small when a change breaks a property on millions of inputs
-        if self.n_oracle_fail < 20000 {
-            writeln!(self.oracle, "{}\t{}\t{}", prop, line, detail).unwrap();
-        }
-        self.n_oracle_fail += 1;
-    }
-}
-
-fn trunc(s: &str) -> String {
-    if s.len() > 160 {
-        format!("{}…({} chars)", &s[..160], s.len())
-    } else {
-        s.to_string()
-    }
-}
-
-/// run `f` catching panics; `None` = panicked
-pub fn guarded<T>(f: impl FnOnce() -> T) -> Option<T> {
-    catch_unwind(AssertUnwindSafe(f)).ok()
-}
-
 fn main() {
-    std::panic::set_hook(Box::new(|_| {}));
-    let args: Vec<String> = std::env::args().collect();
-    if args.len() < 5 {
-        eprintln!("usage: harness <domain> <quick|thorough> <seed> <outdir> [replay]");
-        std::process::exit(2);
-    }
-    let domain = args[1].as_str();
-    let thorough = args[2] == "thorough";
-    let seed: u64 = args[3].parse().unwrap_or(0);
-    let outdir = &args[4];
-    std::fs::create_dir_all(outdir).unwrap();
-    let mk = |n: &str| BufWriter::new(File::create(format!("{}/{}", outdir, n)).unwrap());
-    let mut cx = Ctx {
-        tier_thorough: thorough,
-        seed,
-        rng: Rng(seed ^ fnv(domain)),
-        cases: mk("cases.txt"),
-        out: mk("impl.out"),
-        oracle: mk("oracle.txt"),
-        n_lines: 0,
-        n_oracle_fail: 0,
-        stats: BTreeMap::new(),
-        distinct: BTreeSet::new(),
-        samples: vec![],
-        exhaustive: vec![],
-    };
-    let replay = args.get(5).cloned();
-    match domain {
-        "TBL" => tbl::run(&mut cx),
-        "BV" => bv::run(&mut cx),
-        "UINT" => uint::run(&mut cx),
-        "PKT" => pkt::run(&mut cx, replay.as_deref()),
-        "RESP" => resp::run(&mut cx),
-        "ACC" => acc::run(&mut cx),
-        "OBS" => obs::run(&mut cx),
-        "LF" => lf::run(&mut cx),
-        "BLK" => blk::run(&mut cx),
-        _ => {
-            eprintln!("unknown domain {}", domain);
-            std::process::exit(2);
-        }
-    }
-    cx.cases.flush().unwrap();
-    cx.out.flush().unwrap();
-    cx.oracle.flush().unwrap();
-    // stats.json
-    let mut s = String::new();
-    s.push_str("{\n");
-    let _ = write!(
-        s,
-        " \"domain\": \"{}\", \"lines\": {}, \"distinct_nontrivial\": {}, \"oracle_failures\": {},\n",
-        domain,
-        cx.n_lines,
-        cx.distinct.len(),
-        cx.n_oracle_fail
-    );
-    s.push_str(" \"overflow_checks\": ");
-    s.push_str(if cfg!(debug_assertions) { "true" } else { "false" });
-    s.push_str(",\n \"exhaustive\": [");
-    s.push_str(
-        &cx.exhaustive
-            .iter()
-            .map(|x| format!("\"{}\"", x.replace('\\', "\\\\").replace('"', "'")))
-            .collect::<Vec<_>>()
-            .join(", "),
-    );
-    s.push_str("],\n \"distribution\": {");
-    s.push_str(
-        &cx.stats
-            .iter()
-            .map(|(k, v)| format!("\"{}\": {}", k, v))
-            .collect::<Vec<_>>()
-            .join(", "),
-    );
-    s.push_str("},\n \"samples\": [");
-    s.push_str(
-        &cx.samples
-            .iter()
-            .map(|x| format!("\"{}\"", x.replace('\\', "\\\\").replace('"', "'")))
-            .collect::<Vec<_>>()
-            .join(", "),
-    );
-    s.push_str("]\n}\n");
-    std::fs::write(format!("{}/stats.json", outdir), s).unwrap();
+    harness::main_cli()
 }
